@@ -565,6 +565,48 @@ def c05_l3(ctx):
         if f.kind != "AssocFn" or f.name not in ("encode", "encoded_len") or not f.impl_self_adt:
             continue
         by.setdefault(strip_generics(f.impl_self_adt), {})[f.name] = f
+    # types whose announced length is a set of plain constants (`SegmentRequestForm`: 8 or 16): a nested value of
+    # such a type, written `L(T, x)`, stands for those constants on either side
+    fixed = {}
+    for path in sorted(by):
+        d = by[path]
+        if "encode" in d and "encoded_len" in d and path.split("::")[-1] != "VariableID":
+            try:
+                ann = Lengths(ctx.prog).announced(d["encoded_len"])
+            except Unknown:
+                continue
+            if ann and all(re.match(r"^\d+$", k) for k in ann):
+                fixed[path.split("::")[-1]] = sorted(int(k) for k in ann)
+
+    def expand(keys):
+        P = Lengths(ctx.prog)
+        out = set()
+        for k in keys:
+            alts = [P._parse(k)]
+            for _ in range(6):
+                nxt = []
+                changed = False
+                for f_ in alts:
+                    hit = None
+                    for a in f_.t:
+                        m = re.match(r"^L\((\w+), ", a)
+                        if m and m.group(1) in fixed and a.endswith(")"):
+                            hit = (a, m.group(1))
+                            break
+                    if hit is None:
+                        nxt.append(f_)
+                        continue
+                    changed = True
+                    c = f_.t[hit[0]]
+                    rest = type(f_)({x: y for x, y in f_.t.items() if x != hit[0]})
+                    for v in fixed[hit[1]]:
+                        nxt.append(rest.add(type(f_).const(c * v)))
+                alts = nxt
+                if not changed:
+                    break
+            out |= {f_.key() for f_ in alts}
+        return out
+
     n = 0
     for path in sorted(by):
         d = by[path]
@@ -588,6 +630,8 @@ def c05_l3(ctx):
         if tn == "PDU":
             # PDU::encoded_len excludes the CRC trailer by design (header length field counts it separately)
             emitted = {re.sub(r"^2 \+ ", "", k) if k.startswith("2 + ") else k for k in emitted}
+        if emitted != announced:
+            emitted, announced = expand(emitted), expand(announced)
         if emitted == announced:
             yield ok("C05-L3", key, at(d["encoded_len"]), {"forms": sorted(emitted)[:8]})
         else:
